@@ -44,11 +44,7 @@ func ruleStatsCounters(c *core.Ctx, rule string) {
 				fname := core.FuncName(fn)
 				pos := c.P.Pos(st.Pos())
 				c.Universe(rule+" record counts", fname+" "+fld+" ("+pos+")")
-				ld, ok := st.Val.(*ssa.UnOp)
-				var cell *ssa.Alloc
-				if ok && ld.Op == token.MUL {
-					cell, _ = ld.X.(*ssa.Alloc)
-				}
+				cell := counterCell(st.Val, 3)
 				if cell == nil {
 					c.Violate(rule, fname, fld, pos, fmt.Sprintf("%s is %s, not a counter incremented once per record the parser delivers: records with a repeated heading, or the number of callbacks, may differ from it", fld, st.Val.String()), nil)
 					continue
@@ -77,7 +73,7 @@ func ruleStatsCounters(c *core.Ctx, rule string) {
 					switch r := r.(type) {
 					case *ssa.Store:
 						if r.Addr == ssa.Value(cell) {
-							check(r, fn)
+							check(r, cell.Parent())
 						}
 					case *ssa.MakeClosure:
 						clo := r.Fn.(*ssa.Function)
@@ -171,4 +167,46 @@ func countStoresPerCallback(c *core.Ctx, rule string, clo *ssa.Function, cell *s
 		}
 	}
 	return ""
+}
+
+// counterCell: the local variable whose value v is — directly, or as the result
+// a repository helper returns on every path (count, err := countRecords(...)).
+func counterCell(v ssa.Value, depth int) *ssa.Alloc {
+	switch x := v.(type) {
+	case *ssa.UnOp:
+		if x.Op == token.MUL {
+			if a, ok := x.X.(*ssa.Alloc); ok {
+				return a
+			}
+		}
+	case *ssa.Extract:
+		if call, ok := x.Tuple.(*ssa.Call); ok {
+			return returnedCell(call, x.Index, depth)
+		}
+	case *ssa.Call:
+		return returnedCell(x, 0, depth)
+	}
+	return nil
+}
+
+func returnedCell(call *ssa.Call, idx, depth int) *ssa.Alloc {
+	cal := call.Call.StaticCallee()
+	if cal == nil || len(cal.Blocks) == 0 || depth == 0 {
+		return nil
+	}
+	var cell *ssa.Alloc
+	for _, b := range cal.Blocks {
+		for _, in := range b.Instrs {
+			ret, ok := in.(*ssa.Return)
+			if !ok || idx >= len(ret.Results) {
+				continue
+			}
+			c := counterCell(ret.Results[idx], depth-1)
+			if c == nil || (cell != nil && c != cell) {
+				return nil
+			}
+			cell = c
+		}
+	}
+	return cell
 }
